@@ -171,7 +171,9 @@ func (s *Service) parseAddress(address string) error {
 
 	switch s.protocol {
 	case "unix":
-		break
+		if s.address == "" {
+			return fmt.Errorf("Missing unix socket path")
+		}
 	case "tcp":
 		break
 
@@ -236,9 +238,12 @@ func (s *Service) Bind(ctx context.Context, address string) error {
 	}
 	s.mutex.Unlock()
 
-	s.parseAddress(address)
+	err := s.parseAddress(address)
+	if err != nil {
+		return err
+	}
 
-	err := s.setListener(ctx)
+	err = s.setListener(ctx)
 	if err != nil {
 		return err
 	}
